@@ -38,6 +38,7 @@ func main() {
 		{"Pool.lean", extractPool},
 		{"Locks.lean", extractLocks},
 		{"Math.lean", extractMath},
+		{"Grammar.lean", extractGrammar},
 	}
 	for _, g := range gens {
 		s, err := g.fn(*repo)
